@@ -36,3 +36,26 @@ package utils
 //@ func utils.ConstantTimeCmp#eff
 //@ func utils.DecomposeNAF#eff
 //@ writes out
+
+// Memory safety of the signed-window recoding (its digit-level specification is covered by a bounded
+// stand-in only, see /verif/DESIGN.md C20): every index is in range for every input under the stated sizes.
+//@ func utils.DecomposeNAF
+//@ mode bv
+//@ requires w: 1 <= w && w <= 7
+//@ requires n: 2 <= n && n <= 65536 && n - 1 <= 8 * len(s) && n <= len(out)
+//@ panics_if out == nil || s == nil
+//@ loop 1
+//@ invariant idx: 0 <= outIdx && outIdx <= n + 7
+
+//@ func utils.getBit
+//@ mode bv
+//@ requires idx: 0 <= idx && idx < 8 * len(s)
+//@ ensures bit: result0 == 0 || result0 == 1
+//@ assigns nothing
+
+//@ func utils.getBits
+//@ mode bv
+//@ requires idx: 0 <= idx && idx < 8 * len(s)
+//@ requires w: 1 <= w && w <= 7
+//@ ensures range: 0 <= result && result < 256
+//@ assigns nothing
